@@ -667,6 +667,11 @@ func (ex *Exec) applyContract(st *State, fn *types.Func, fs *FuncSpec, u *Unit, 
 	if len(fs.Params) != len(args) {
 		ex.specFail("contract %s binds %d parameters, call has %d", fs.Name, len(fs.Params), len(args))
 	}
+	// the caller's own scope just before the call (for bind expressions)
+	var callerPre *State
+	if ex.FSpec != nil && ex.FSpec.Binds != nil {
+		callerPre = st.clone()
+	}
 	// evaluation scope: callee's names only
 	cs := st.clone()
 	cs.bound = map[string]*Val{}
@@ -725,6 +730,15 @@ func (ex *Exec) applyContract(st *State, fn *types.Func, fs *FuncSpec, u *Unit, 
 	for _, m := range fs.Modifies {
 		ex.applyModifies(st, cs, m, u)
 	}
+	if !fs.Pure {
+		// the callee may allocate: objects it returns may be new (without this
+		// the results were forced to pre-date the call, which contradicts any
+		// fresh(...) postcondition and silently kills the caller's paths)
+		a := ex.alloc(st)
+		n := ex.fresh("alloc", SInt)
+		st.assume(ge(n, a))
+		st.heaps["$alloc"] = n
+	}
 	cs.heaps = st.heaps
 	post := cs.clone()
 	post.heaps = st.heaps
@@ -761,8 +775,52 @@ func (ex *Exec) applyContract(st *State, fn *types.Func, fs *FuncSpec, u *Unit, 
 		}
 	}
 	post.pc = append([]*Term(nil), st.pc...)
+	// ghost parameters bound by the caller's contract (bind Callee.g = expr)
+	boundGhosts := map[string]bool{}
+	if ex.FSpec != nil && ex.FSpec.Binds != nil && callerPre != nil {
+		var binds map[string]string
+		for _, k := range hookKeys(fn) {
+			if b, ok := ex.FSpec.Binds[k]; ok {
+				binds = b
+			}
+		}
+		if binds != nil {
+			for _, g := range fs.Ghosts {
+				gt := ex.parseSpecType(g.Type, u)
+				if src, ok := binds[g.Name]; ok && g.Init == "" {
+					v := ex.evalSpec(callerPre, src, ex.U, "bind "+key+"."+g.Name)
+					ex.adoptFacts(st, callerPre)
+					v = ex.coerce(st, ex.materialize(v, gt), gt)
+					cs.ghost[g.Name] = v
+					post.ghost[g.Name] = v
+					boundGhosts[g.Name] = true
+				} else if g.Init != "" && !mentionsIdent(g.Init, unboundOf(ghostNames, boundGhosts)) {
+					// initialised ghost whose initialiser only needs bound ghosts:
+					// its entry value, as a formula over the callee's entry state
+					// (cs.old is the callee's entry state: heaps before its frame was havocked)
+					entry := cs.old
+					if entry == nil {
+						entry = cs
+					}
+					if entry.ghost == nil {
+						entry.ghost = map[string]*Val{}
+					}
+					for k2, v2 := range cs.ghost {
+						entry.ghost[k2] = v2
+					}
+					v := ex.evalSpec(entry, g.Init, u, "ghost "+key+"."+g.Name)
+					ex.adoptFacts(st, entry)
+					v = ex.coerce(st, ex.materialize(v, gt), gt)
+					cs.ghost[g.Name] = v
+					entry.ghost[g.Name] = v
+					post.ghost[g.Name] = v
+					boundGhosts[g.Name] = true
+				}
+			}
+		}
+	}
 	for _, c := range fs.Ensures {
-		if mentionsIdent(c.Expr, ghostNames) {
+		if mentionsIdent(c.Expr, unboundOf(ghostNames, boundGhosts)) {
 			continue
 		}
 		g := ex.evalSpecBool(post, c.Expr, u, where(c))
@@ -779,6 +837,16 @@ func (ex *Exec) applyContract(st *State, fn *types.Func, fs *FuncSpec, u *Unit, 
 		ex.W.Trusted["trusted contract: "+key] = true
 	}
 	return results
+}
+
+func unboundOf(all, bound map[string]bool) map[string]bool {
+	out := map[string]bool{}
+	for k := range all {
+		if !bound[k] {
+			out[k] = true
+		}
+	}
+	return out
 }
 
 func labelOr(l, d string) string {
